@@ -105,6 +105,10 @@ impl UDPSender {
   }
 
   pub fn send_to_locator(&self, buffer: &[u8], locator: &Locator) {
+    #[cfg(rustdds_verif)]
+    if crate::verif_hooks::capture::intercept(buffer, locator) {
+      return;
+    }
     if buffer.len() > 1500 {
       warn!("send_to_locator: Message size = {}", buffer.len());
     }
